@@ -31,55 +31,69 @@ def decls : List Decl :=
    ⟨"logLogger.Println", [], [⟨"l.l.Println", "l", "Println"⟩]⟩,
    ⟨"logLogger.SetFlags", [], [⟨"l.l.SetFlags", "l", "SetFlags"⟩]⟩,
    ⟨"logLogger.SetOutput", [], [⟨"l.l.SetOutput", "l", "SetOutput"⟩]⟩,
+   ⟨"logLogger.SetPrefix", [], [⟨"l.l.SetPrefix", "l", "SetPrefix"⟩]⟩,
    ⟨"logLogger.Writer", ["io.Writer"], [⟨"l.l.Writer", "l", "Writer"⟩]⟩]
 
+/- interp/use.go fixStdlib as of 77e1d98, read by hand:
+     fmt     six closures over the locals stdin / stdout;
+     flag    CommandLine = a set named `prog` (3f8ef33: element 0 of interp.args, "" when there is none), output to stderr;
+             restricted mode only (b69bc95): NewFlagSet = the host's constructor with ExitOnError replaced by PanicOnError;
+     log     (77e1d98) l = the logger made by the table's own log.New (the host's in unrestricted mode or when the table has
+             none) over stderr; Default = a function returning l; Fatal* = l's Panic*; thirteen names (the range loop) =
+             l's methods of the same name;
+     os      Args, the three streams (special stdio / *os.File), the seven environment functions (restricted mode only);
+     math/bits UintSize. -/
 def rebinds : List Rebind :=
-  [⟨"fmt", "Print", [], [⟨"reflect.ValueOf", "reflect", "ValueOf"⟩, ⟨"fmt.Fprint", "fmt", "Fprint"⟩, ⟨"stdout", "stdout", "stdout"⟩]⟩,
-   ⟨"fmt", "Printf", [], [⟨"reflect.ValueOf", "reflect", "ValueOf"⟩, ⟨"fmt.Fprintf", "fmt", "Fprintf"⟩, ⟨"stdout", "stdout", "stdout"⟩]⟩,
-   ⟨"fmt", "Println", [], [⟨"reflect.ValueOf", "reflect", "ValueOf"⟩, ⟨"fmt.Fprintln", "fmt", "Fprintln"⟩, ⟨"stdout", "stdout", "stdout"⟩]⟩,
-   ⟨"fmt", "Scan", [], [⟨"reflect.ValueOf", "reflect", "ValueOf"⟩, ⟨"fmt.Fscan", "fmt", "Fscan"⟩, ⟨"stdin", "stdin", "stdin"⟩]⟩,
-   ⟨"fmt", "Scanf", [], [⟨"reflect.ValueOf", "reflect", "ValueOf"⟩, ⟨"fmt.Fscanf", "fmt", "Fscanf"⟩, ⟨"stdin", "stdin", "stdin"⟩]⟩,
-   ⟨"fmt", "Scanln", [], [⟨"reflect.ValueOf", "reflect", "ValueOf"⟩, ⟨"fmt.Fscanln", "fmt", "Fscanln"⟩, ⟨"stdin", "stdin", "stdin"⟩]⟩,
-   ⟨"flag", "CommandLine", [], [⟨"reflect.ValueOf", "reflect", "ValueOf"⟩, ⟨"c", "c", "c"⟩]⟩,
-   ⟨"log", "Fatal", [], [⟨"reflect.ValueOf", "reflect", "ValueOf"⟩, ⟨"l.Panic", "l", "Panic"⟩]⟩,
-   ⟨"log", "Fatalf", [], [⟨"reflect.ValueOf", "reflect", "ValueOf"⟩, ⟨"l.Panicf", "l", "Panicf"⟩]⟩,
-   ⟨"log", "Fatalln", [], [⟨"reflect.ValueOf", "reflect", "ValueOf"⟩, ⟨"l.Panicln", "l", "Panicln"⟩]⟩,
-   ⟨"log", "Flags", [], [⟨"reflect.ValueOf", "reflect", "ValueOf"⟩, ⟨"l.Flags", "l", "Flags"⟩]⟩,
-   ⟨"log", "Output", [], [⟨"reflect.ValueOf", "reflect", "ValueOf"⟩, ⟨"l.Output", "l", "Output"⟩]⟩,
-   ⟨"log", "Panic", [], [⟨"reflect.ValueOf", "reflect", "ValueOf"⟩, ⟨"l.Panic", "l", "Panic"⟩]⟩,
-   ⟨"log", "Panicf", [], [⟨"reflect.ValueOf", "reflect", "ValueOf"⟩, ⟨"l.Panicf", "l", "Panicf"⟩]⟩,
-   ⟨"log", "Panicln", [], [⟨"reflect.ValueOf", "reflect", "ValueOf"⟩, ⟨"l.Panicln", "l", "Panicln"⟩]⟩,
-   ⟨"log", "Prefix", [], [⟨"reflect.ValueOf", "reflect", "ValueOf"⟩, ⟨"l.Prefix", "l", "Prefix"⟩]⟩,
-   ⟨"log", "Print", [], [⟨"reflect.ValueOf", "reflect", "ValueOf"⟩, ⟨"l.Print", "l", "Print"⟩]⟩,
-   ⟨"log", "Printf", [], [⟨"reflect.ValueOf", "reflect", "ValueOf"⟩, ⟨"l.Printf", "l", "Printf"⟩]⟩,
-   ⟨"log", "Println", [], [⟨"reflect.ValueOf", "reflect", "ValueOf"⟩, ⟨"l.Println", "l", "Println"⟩]⟩,
-   ⟨"log", "SetFlags", [], [⟨"reflect.ValueOf", "reflect", "ValueOf"⟩, ⟨"l.SetFlags", "l", "SetFlags"⟩]⟩,
-   ⟨"log", "SetOutput", [], [⟨"reflect.ValueOf", "reflect", "ValueOf"⟩, ⟨"l.SetOutput", "l", "SetOutput"⟩]⟩,
-   ⟨"log", "SetPrefix", [], [⟨"reflect.ValueOf", "reflect", "ValueOf"⟩, ⟨"l.SetPrefix", "l", "SetPrefix"⟩]⟩,
-   ⟨"log", "Writer", [], [⟨"reflect.ValueOf", "reflect", "ValueOf"⟩, ⟨"l.Writer", "l", "Writer"⟩]⟩,
-   ⟨"os", "Args", [], [⟨"reflect.ValueOf", "reflect", "ValueOf"⟩, ⟨"interp.args", "interp", "args"⟩]⟩,
-   ⟨"os", "Stdin", ["interp.specialStdio"], [⟨"reflect.ValueOf", "reflect", "ValueOf"⟩, ⟨"stdin", "stdin", "stdin"⟩]⟩,
-   ⟨"os", "Stdout", ["interp.specialStdio"], [⟨"reflect.ValueOf", "reflect", "ValueOf"⟩, ⟨"stdout", "stdout", "stdout"⟩]⟩,
-   ⟨"os", "Stderr", ["interp.specialStdio"], [⟨"reflect.ValueOf", "reflect", "ValueOf"⟩, ⟨"stderr", "stderr", "stderr"⟩]⟩,
-   ⟨"os", "Stdin", ["!(interp.specialStdio)", "stdin.(*os.File)"], [⟨"reflect.ValueOf", "reflect", "ValueOf"⟩, ⟨"s", "s", "s"⟩, ⟨"stdin", "stdin", "stdin"⟩]⟩,
-   ⟨"os", "Stdout", ["!(interp.specialStdio)", "stdout.(*os.File)"], [⟨"reflect.ValueOf", "reflect", "ValueOf"⟩, ⟨"s", "s", "s"⟩, ⟨"stdout", "stdout", "stdout"⟩]⟩,
-   ⟨"os", "Stderr", ["!(interp.specialStdio)", "stderr.(*os.File)"], [⟨"reflect.ValueOf", "reflect", "ValueOf"⟩, ⟨"s", "s", "s"⟩, ⟨"stderr", "stderr", "stderr"⟩]⟩,
-   ⟨"os", "Clearenv", ["!interp.unrestricted"], [⟨"reflect.ValueOf", "reflect", "ValueOf"⟩, ⟨"interp.env", "interp", "env"⟩]⟩,
-   ⟨"os", "ExpandEnv", ["!interp.unrestricted"], [⟨"reflect.ValueOf", "reflect", "ValueOf"⟩, ⟨"os.Expand", "os", "Expand"⟩, ⟨"getenv", "getenv", "getenv"⟩]⟩,
-   ⟨"os", "Getenv", ["!interp.unrestricted"], [⟨"reflect.ValueOf", "reflect", "ValueOf"⟩, ⟨"getenv", "getenv", "getenv"⟩]⟩,
-   ⟨"os", "LookupEnv", ["!interp.unrestricted"], [⟨"reflect.ValueOf", "reflect", "ValueOf"⟩, ⟨"interp.env", "interp", "env"⟩]⟩,
-   ⟨"os", "Setenv", ["!interp.unrestricted"], [⟨"reflect.ValueOf", "reflect", "ValueOf"⟩, ⟨"interp.env", "interp", "env"⟩]⟩,
-   ⟨"os", "Unsetenv", ["!interp.unrestricted"], [⟨"reflect.ValueOf", "reflect", "ValueOf"⟩, ⟨"interp.env", "interp", "env"⟩]⟩,
-   ⟨"os", "Environ", ["!interp.unrestricted"], [⟨"reflect.ValueOf", "reflect", "ValueOf"⟩, ⟨"interp.env", "interp", "env"⟩]⟩,
-   ⟨"math/bits", "UintSize", [], [⟨"reflect.ValueOf", "reflect", "ValueOf"⟩, ⟨"constant.MakeInt64", "constant", "MakeInt64"⟩, ⟨"bits.UintSize", "bits", "UintSize"⟩]⟩]
+  [⟨"fmt", "Print", [], [⟨"reflect.ValueOf", "reflect", "ValueOf"⟩, ⟨"fmt.Fprint", "fmt", "Fprint"⟩, ⟨"stdout", "stdout", "stdout"⟩], .expr⟩,
+   ⟨"fmt", "Printf", [], [⟨"reflect.ValueOf", "reflect", "ValueOf"⟩, ⟨"fmt.Fprintf", "fmt", "Fprintf"⟩, ⟨"stdout", "stdout", "stdout"⟩], .expr⟩,
+   ⟨"fmt", "Println", [], [⟨"reflect.ValueOf", "reflect", "ValueOf"⟩, ⟨"fmt.Fprintln", "fmt", "Fprintln"⟩, ⟨"stdout", "stdout", "stdout"⟩], .expr⟩,
+   ⟨"fmt", "Scan", [], [⟨"reflect.ValueOf", "reflect", "ValueOf"⟩, ⟨"fmt.Fscan", "fmt", "Fscan"⟩, ⟨"stdin", "stdin", "stdin"⟩], .expr⟩,
+   ⟨"fmt", "Scanf", [], [⟨"reflect.ValueOf", "reflect", "ValueOf"⟩, ⟨"fmt.Fscanf", "fmt", "Fscanf"⟩, ⟨"stdin", "stdin", "stdin"⟩], .expr⟩,
+   ⟨"fmt", "Scanln", [], [⟨"reflect.ValueOf", "reflect", "ValueOf"⟩, ⟨"fmt.Fscanln", "fmt", "Fscanln"⟩, ⟨"stdin", "stdin", "stdin"⟩], .expr⟩,
+   ⟨"flag", "CommandLine", [], [⟨"reflect.ValueOf", "reflect", "ValueOf"⟩, ⟨"c", "c", "c"⟩], .expr⟩,
+   ⟨"flag", "NewFlagSet", ["!interp.unrestricted"], [⟨"reflect.ValueOf", "reflect", "ValueOf"⟩, ⟨"flag.ErrorHandling", "flag", "ErrorHandling"⟩, ⟨"flag.FlagSet", "flag", "FlagSet"⟩, ⟨"flag.ExitOnError", "flag", "ExitOnError"⟩, ⟨"flag.PanicOnError", "flag", "PanicOnError"⟩, ⟨"flag.NewFlagSet", "flag", "NewFlagSet"⟩], .remap "flag.NewFlagSet" [(⟨"flag.ExitOnError", "flag", "ExitOnError"⟩, ⟨"flag.PanicOnError", "flag", "PanicOnError"⟩)]⟩,
+   ⟨"log", "Default", [], [⟨"reflect.MakeFunc", "reflect", "MakeFunc"⟩, ⟨"reflect.FuncOf", "reflect", "FuncOf"⟩, ⟨"reflect.Type", "reflect", "Type"⟩, ⟨"l.Type", "l", "Type"⟩, ⟨"reflect.Value", "reflect", "Value"⟩, ⟨"l", "l", "l"⟩], .constFn "l"⟩,
+   ⟨"log", "Fatal", [], [⟨"l.MethodByName", "l", "MethodByName"⟩], .method "l" "Panic"⟩,
+   ⟨"log", "Fatalf", [], [⟨"l.MethodByName", "l", "MethodByName"⟩], .method "l" "Panicf"⟩,
+   ⟨"log", "Fatalln", [], [⟨"l.MethodByName", "l", "MethodByName"⟩], .method "l" "Panicln"⟩,
+   ⟨"log", "Flags", [], [⟨"l.MethodByName", "l", "MethodByName"⟩], .method "l" "Flags"⟩,
+   ⟨"log", "Output", [], [⟨"l.MethodByName", "l", "MethodByName"⟩], .method "l" "Output"⟩,
+   ⟨"log", "Panic", [], [⟨"l.MethodByName", "l", "MethodByName"⟩], .method "l" "Panic"⟩,
+   ⟨"log", "Panicf", [], [⟨"l.MethodByName", "l", "MethodByName"⟩], .method "l" "Panicf"⟩,
+   ⟨"log", "Panicln", [], [⟨"l.MethodByName", "l", "MethodByName"⟩], .method "l" "Panicln"⟩,
+   ⟨"log", "Prefix", [], [⟨"l.MethodByName", "l", "MethodByName"⟩], .method "l" "Prefix"⟩,
+   ⟨"log", "Print", [], [⟨"l.MethodByName", "l", "MethodByName"⟩], .method "l" "Print"⟩,
+   ⟨"log", "Printf", [], [⟨"l.MethodByName", "l", "MethodByName"⟩], .method "l" "Printf"⟩,
+   ⟨"log", "Println", [], [⟨"l.MethodByName", "l", "MethodByName"⟩], .method "l" "Println"⟩,
+   ⟨"log", "SetFlags", [], [⟨"l.MethodByName", "l", "MethodByName"⟩], .method "l" "SetFlags"⟩,
+   ⟨"log", "SetOutput", [], [⟨"l.MethodByName", "l", "MethodByName"⟩], .method "l" "SetOutput"⟩,
+   ⟨"log", "SetPrefix", [], [⟨"l.MethodByName", "l", "MethodByName"⟩], .method "l" "SetPrefix"⟩,
+   ⟨"log", "Writer", [], [⟨"l.MethodByName", "l", "MethodByName"⟩], .method "l" "Writer"⟩,
+   ⟨"os", "Args", [], [⟨"reflect.ValueOf", "reflect", "ValueOf"⟩, ⟨"interp.args", "interp", "args"⟩], .expr⟩,
+   ⟨"os", "Stdin", ["interp.specialStdio"], [⟨"reflect.ValueOf", "reflect", "ValueOf"⟩, ⟨"stdin", "stdin", "stdin"⟩], .expr⟩,
+   ⟨"os", "Stdout", ["interp.specialStdio"], [⟨"reflect.ValueOf", "reflect", "ValueOf"⟩, ⟨"stdout", "stdout", "stdout"⟩], .expr⟩,
+   ⟨"os", "Stderr", ["interp.specialStdio"], [⟨"reflect.ValueOf", "reflect", "ValueOf"⟩, ⟨"stderr", "stderr", "stderr"⟩], .expr⟩,
+   ⟨"os", "Stdin", ["!(interp.specialStdio)", "stdin.(*os.File)"], [⟨"reflect.ValueOf", "reflect", "ValueOf"⟩, ⟨"s", "s", "s"⟩, ⟨"stdin", "stdin", "stdin"⟩], .expr⟩,
+   ⟨"os", "Stdout", ["!(interp.specialStdio)", "stdout.(*os.File)"], [⟨"reflect.ValueOf", "reflect", "ValueOf"⟩, ⟨"s", "s", "s"⟩, ⟨"stdout", "stdout", "stdout"⟩], .expr⟩,
+   ⟨"os", "Stderr", ["!(interp.specialStdio)", "stderr.(*os.File)"], [⟨"reflect.ValueOf", "reflect", "ValueOf"⟩, ⟨"s", "s", "s"⟩, ⟨"stderr", "stderr", "stderr"⟩], .expr⟩,
+   ⟨"os", "Clearenv", ["!interp.unrestricted"], [⟨"reflect.ValueOf", "reflect", "ValueOf"⟩, ⟨"interp.env", "interp", "env"⟩], .expr⟩,
+   ⟨"os", "ExpandEnv", ["!interp.unrestricted"], [⟨"reflect.ValueOf", "reflect", "ValueOf"⟩, ⟨"os.Expand", "os", "Expand"⟩, ⟨"getenv", "getenv", "getenv"⟩], .expr⟩,
+   ⟨"os", "Getenv", ["!interp.unrestricted"], [⟨"reflect.ValueOf", "reflect", "ValueOf"⟩, ⟨"getenv", "getenv", "getenv"⟩], .expr⟩,
+   ⟨"os", "LookupEnv", ["!interp.unrestricted"], [⟨"reflect.ValueOf", "reflect", "ValueOf"⟩, ⟨"interp.env", "interp", "env"⟩], .expr⟩,
+   ⟨"os", "Setenv", ["!interp.unrestricted"], [⟨"reflect.ValueOf", "reflect", "ValueOf"⟩, ⟨"interp.env", "interp", "env"⟩], .expr⟩,
+   ⟨"os", "Unsetenv", ["!interp.unrestricted"], [⟨"reflect.ValueOf", "reflect", "ValueOf"⟩, ⟨"interp.env", "interp", "env"⟩], .expr⟩,
+   ⟨"os", "Environ", ["!interp.unrestricted"], [⟨"reflect.ValueOf", "reflect", "ValueOf"⟩, ⟨"interp.env", "interp", "env"⟩], .expr⟩,
+   ⟨"math/bits", "UintSize", [], [⟨"reflect.ValueOf", "reflect", "ValueOf"⟩, ⟨"constant.MakeInt64", "constant", "MakeInt64"⟩, ⟨"bits.UintSize", "bits", "UintSize"⟩], .expr⟩]
 
 def locals : List LocalDef :=
-  [⟨"stdin", [⟨"interp.stdin", "interp", "stdin"⟩]⟩,
-   ⟨"stdout", [⟨"interp.stdout", "interp", "stdout"⟩]⟩,
-   ⟨"stderr", [⟨"interp.stderr", "interp", "stderr"⟩]⟩,
-   ⟨"c", [⟨"flag.NewFlagSet", "flag", "NewFlagSet"⟩, ⟨"os.Args", "os", "Args"⟩, ⟨"flag.PanicOnError", "flag", "PanicOnError"⟩, ⟨"stderr", "stderr", "stderr"⟩]⟩,
-   ⟨"l", [⟨"log.New", "log", "New"⟩, ⟨"stderr", "stderr", "stderr"⟩, ⟨"log.LstdFlags", "log", "LstdFlags"⟩]⟩,
-   ⟨"getenv", [⟨"interp.env", "interp", "env"⟩]⟩]
+  [⟨"stdin", [⟨"interp.stdin", "interp", "stdin"⟩], "fmt", "interp.stdin", []⟩,
+   ⟨"stdout", [⟨"interp.stdout", "interp", "stdout"⟩], "fmt", "interp.stdout", []⟩,
+   ⟨"stderr", [⟨"interp.stderr", "interp", "stderr"⟩], "fmt", "interp.stderr", []⟩,
+   ⟨"prog", [⟨"interp.args", "interp", "args"⟩], "flag", "\"\"", [⟨["len(interp.args) > 0"], "interp.args[0]", [⟨"interp.args", "interp", "args"⟩]⟩]⟩,
+   ⟨"c", [⟨"flag.NewFlagSet", "flag", "NewFlagSet"⟩, ⟨"prog", "prog", "prog"⟩, ⟨"flag.PanicOnError", "flag", "PanicOnError"⟩, ⟨"stderr", "stderr", "stderr"⟩], "flag", "flag.NewFlagSet(prog, flag.PanicOnError)", []⟩,
+   ⟨"newLogger", [⟨"p", "p", "p"⟩, ⟨"reflect.ValueOf", "reflect", "ValueOf"⟩, ⟨"log.New", "log", "New"⟩], "log", "p[\"New\"]", [⟨["interp.unrestricted || !newLogger.IsValid()"], "reflect.ValueOf(log.New)", [⟨"reflect.ValueOf", "reflect", "ValueOf"⟩, ⟨"log.New", "log", "New"⟩]⟩]⟩,
+   ⟨"l", [⟨"newLogger.Call", "newLogger", "Call"⟩, ⟨"reflect.Value", "reflect", "Value"⟩, ⟨"reflect.ValueOf", "reflect", "ValueOf"⟩, ⟨"stderr", "stderr", "stderr"⟩, ⟨"log.LstdFlags", "log", "LstdFlags"⟩], "log", "newLogger.Call([]reflect.Value{reflect.ValueOf(stderr), reflect.ValueOf(\"\"), reflect.ValueOf(log.LstdFlags)})[0]", []⟩,
+   ⟨"getenv", [⟨"interp.env", "interp", "env"⟩], "os", "func(key string) string { return interp.env[key] }", []⟩]
 
 def uses : List UseCall := [⟨"stdlib", ""⟩, ⟨"interp", ""⟩, ⟨"syscall", "useSyscall"⟩, ⟨"unsafe", "useUnsafe"⟩, ⟨"unrestricted", "useUnrestricted"⟩]
 
@@ -109,13 +123,13 @@ def optFlows : List OptFlow :=
    ⟨"BuildTags", "BuildTags", "i.opt.context.BuildTags", "set-if", "len(_) > 0", "build.Default.BuildTags", []⟩]
 
 def sourceHashes : List (String × String) :=
-  [("use.fixStdlib", "89411da84378427f"),
+  [("use.fixStdlib", "c6e0c4ecff823aa7"),
    ("use.Interpreter.Use", "4e42634dd7e03d36"),
    ("interp.Interpreter.ImportUsed", "fdad9fdce34294a2"),
    ("interp.fixKey", "304d3ffc90827c96"),
    ("interp.New.env", "82c172bc294d7950"),
    ("interp.New.options", "59b8e97d5d7065da"),
-   ("gta.importSpec", "a8a1223cf5295e74"),
+   ("gta.importSpec", "0643759c43d4c036"),
    ("restricted.osExit", "303ff636090f458b"),
    ("restricted.osFindProcess", "f0ae354e2d0b7566"),
    ("restricted.logNew", "cdfff7bf0e482ce5")]
